@@ -199,8 +199,8 @@ func init() {
 		}
 		// part keys are deleted for every part index of the block
 		okParts := false
-		for _, ea := range condEdges(pr) {
-			if guardCmp("p", `phi\(\(phi:p \+ 1\)\|0\)`, "<", `.*\.BlockID\.PartSetHeader\.Total`).Match(w, pr, ea.A) {
+		for _, ea := range condEdgesDeep(pr) {
+			if guardCmp("p", `phi\(\(phi:\w+ \+ 1\)\|0\)`, "<", `.*\.BlockID\.PartSetHeader\.Total`).Match(w, pr, ea.A) {
 				okParts = true
 			}
 		}
